@@ -12,8 +12,8 @@ pub const STEER: u64 = 8;
 
 pub fn n_cases(ctx: &Ctx) -> u64 {
     let base = match (ctx.variant.as_str(), ctx.thorough()) {
-        ("miri", false) => 3,
-        ("miri", true) => 20,
+        ("miri", false) => 24,
+        ("miri", true) => 600,
         ("vg", false) => 24,
         ("vg", true) => 300,
         ("tsan", false) => 60,
